@@ -49,6 +49,9 @@
 (declare-fun secretMatches (GStr GStr) Bool)
 (declare-fun authWrapped (Int) Bool)
 (declare-fun writeAuthWrapped (Int) Bool)
+; net.SplitHostPort, uninterpreted: the port it returns and whether it succeeded
+(declare-fun splitPort (GStr) GStr)
+(declare-fun splitOK (GStr) Bool)
 ; name of an open file
 (declare-fun fileName (Int) GStr)
 ; eviction queue (ghost bag of entries handed to the remover)
